@@ -761,6 +761,14 @@ fn redial_keeps_connection(run: &mut Run, cases: usize) -> anyhow::Result<()> {
             tokio::time::sleep(Duration::from_millis(200)).await;
             let mk = |id: &str| Request::new(Bytes::from_static(b"x")).with_header("x-id", id);
             let r0 = a.net.rpc(b.id, mk("first")).await.is_ok();
+            // in half of the cases requests are in flight in both directions on the connection that the
+            // second dial will replace: they may fail, the pair must stay connected
+            if case % 4 >= 2 {
+                for (n, to, id) in [(a.net.clone(), b.id, "slow-ab"), (b.net.clone(), a.id, "slow-ba")] {
+                    tokio::spawn(async move { n.rpc(to, Request::new(Bytes::from_static(b"x")).with_header("x-id", id).with_header("x-sleep-ms", "1500")).await.is_ok() });
+                }
+                tokio::time::sleep(Duration::from_millis(100)).await;
+            }
             // the second dial: same direction, or the reverse one
             let second = if case % 2 == 0 { a.net.connect_with_peer_id(b.addr, b.id).await.is_ok() } else { b.net.connect_with_peer_id(a.addr, a.id).await.is_ok() };
             tokio::time::sleep(Duration::from_secs(2)).await;
@@ -780,6 +788,48 @@ fn redial_keeps_connection(run: &mut Run, cases: usize) -> anyhow::Result<()> {
         }
         run.count("redial-keeps-connection", if ok { "ok" } else { "broken" });
         run.eval(&format!("redial{case}"), true);
+    }
+    Ok(())
+}
+
+/// A subscriber that reads late but stays within the CONFIGURED capacity of the event channel is entitled
+/// to every event: its snapshot plus its events must reproduce the listing.
+fn lazy_subscriber(run: &mut Run, cases: usize) -> anyhow::Result<()> {
+    for case in 0..cases {
+        run.mark(&format!("scenario lazy_subscriber case {case}"));
+        let seed = run.seed ^ 0x1A2B ^ ((case as u64) << 8);
+        let rt = paused_rt();
+        let res: anyhow::Result<(bool, usize, (String, String))> = rt.block_on(async move {
+            let fabric = Fabric::new(seed);
+            let mut cfg = config_idle(60_000);
+            cfg.peer_event_broadcast_channel_capacity = Some(512);
+            cfg.connection_manager_channel_capacity = Some(if case % 2 == 0 { 4 } else { 16 });
+            let a = start_node(&fabric, seed, 1, cfg)?;
+            let b = start_node(&fabric, seed, 2, config_idle(60_000))?;
+            let mut log = NodeLog::new(&a.net);
+            let rounds = 40 + 10 * case;
+            for i in 0..rounds {
+                if i % 2 == 0 {
+                    a.net.connect_with_peer_id(b.addr, b.id).await?;
+                } else {
+                    b.net.connect_with_peer_id(a.addr, a.id).await?;
+                }
+                tokio::time::sleep(Duration::from_millis(150)).await;
+                let _ = if i % 3 == 0 { b.net.disconnect(a.id) } else { a.net.disconnect(b.id) };
+                tokio::time::sleep(Duration::from_millis(400)).await;
+            }
+            let lagged = log.pump();
+            let n = log.events.len();
+            Ok((lagged, n, log.acceptor_line(a.net.peers())))
+        });
+        drop(rt);
+        let (lagged, n, (op, imp)) = res?;
+        run.count("lazy-subscriber", if lagged { "lagged" } else { "complete" });
+        if lagged || n < 80 {
+            run.oracle_fail(json!({"kind": "a subscriber within the configured event-channel capacity (512) lost events", "events_received": n, "lagged": lagged, "case": case}));
+        } else {
+            run.op(op, imp, true);
+        }
     }
     Ok(())
 }
@@ -808,7 +858,8 @@ pub fn run_c04(run: &mut Run, replay: Option<&std::path::Path>) -> anyhow::Resul
     network_logs(run, if run.quick() { 25 } else { 400 })?;
     blocked_handler_exit(run, if run.quick() { 2 } else { 8 })?;
     stale_exit_race(run, if run.quick() { 2 } else { 8 })?;
-    redial_keeps_connection(run, if run.quick() { 4 } else { 40 })?;
+    redial_keeps_connection(run, if run.quick() { 8 } else { 40 })?;
+    lazy_subscriber(run, if run.quick() { 2 } else { 20 })?;
     contention_rounds(run, if run.quick() { 200 } else { 2000 }, "remote")?;
     Ok(())
 }
